@@ -32,7 +32,7 @@ HEALTH = {"accepted": 0.2, "nontrivial_layout": 0.12, "negative": 0.02, "through
 EXHAUSTIVE = {"quick": ["every third program of the C03 label,PCR distance families (single, spanning, crossing), judged by the layout walk"],
               "thorough": ["all programs of the C03 label,PCR distance families, judged by the layout walk"]}
 
-_neg = st.sampled_from(["dup_label", "undef_symbol", "second_org", "code_before_org", "org_here", "org_here"])
+_neg = st.sampled_from(["dup_label", "undef_symbol", "second_org", "code_before_org", "org_here", "org_here", "org_twice"])
 _case = st.one_of(
     st.fixed_dictionaries(dict(prog=proggen.program)),
     st.fixed_dictionaries(dict(prog=proggen.program)),
@@ -168,6 +168,15 @@ def apply_negative(case):
         pos = body[case["at"] % len(body)] + 1          # right after some byte-emitting statement (instruction or data)
         stmts.insert(pos, {"lab": "", "k": "org", "addr": (prog["org"] + 0x1000 + case["at2"] * 16) % 0xE000})
         return prog, neg
+    if neg == "org_twice":
+        # an earlier ORG (a template default) overridden by the program's own before any byte is emitted: a valid
+        # program, judged by the ordinary walk - the origin is the one in force when the first byte is emitted
+        if prog["org"] is None:
+            return prog, None
+        stmts.insert(0, {"lab": "", "k": "org", "addr": (prog["org"] + 0x0400 + case["at2"] * 0x101) % 0xF000})
+        if case["at"] % 2:
+            stmts.insert(1, {"lab": "ZZQ", "k": "equ", "val": proggen.lit(5)})
+        return prog, neg
     if neg == "org_here":
         # a further ORG whose operand is exactly the current location: nothing moves, so the program may be accepted -
         # and then everything, the reported origin included, must still be as without it
@@ -224,6 +233,8 @@ def execute(case):
     if neg:
         labels.append("negative")
         labels.append("neg:" + neg)
+    if neg == "org_twice":
+        neg = None
     if neg in ("dup_label", "undef_symbol"):
         if out.kind == "DIAG":
             return ok(labels=labels, nontrivial=True)
